@@ -435,49 +435,6 @@ MessageQueue_getNextWaitingASDU(MessageQueue self, uint64_t* entryId, uint8_t** 
     return buffer;
 }
 
-static bool
-MessageQueue_hasUnconfirmedIMessages(MessageQueue self)
-{
-    bool retVal = false;
-
-#if (CONFIG_USE_SEMAPHORES == 1)
-    Semaphore_wait(self->queueLock);
-#endif
-
-    if (self->entryCounter != 0)
-    {
-        uint8_t* entryPtr = self->firstEntry;
-
-        struct sMessageQueueEntryInfo entryInfo;
-
-        while (entryPtr)
-        {
-            memcpy(&entryInfo, entryPtr, sizeof(struct sMessageQueueEntryInfo));
-
-            if (entryInfo.entryState == QUEUE_ENTRY_STATE_SENT_BUT_NOT_CONFIRMED)
-            {
-                retVal = true;
-                break;
-            }
-
-            if (entryPtr == self->lastEntry)
-                break;
-
-            /* move to next entry */
-            if (entryPtr == self->lastInBufferEntry)
-                entryPtr = self->buffer;
-            else
-                entryPtr = entryPtr + sizeof(struct sMessageQueueEntryInfo) + entryInfo.size;
-        }
-    }
-
-#if (CONFIG_USE_SEMAPHORES == 1)
-    Semaphore_post(self->queueLock);
-#endif
-
-    return retVal;
-}
-
 static void
 MessageQueue_setWaitingForTransmissionWhenNotConfirmed(MessageQueue self)
 {
@@ -3558,11 +3515,34 @@ MasterConnection_hasUnconfirmedMessages(MasterConnection self)
 {
     bool retVal = false;
 
-    if (self->lowPrioQueue)
+    /* Only the event ASDUs sent on THIS connection count. The event queue is shared by all connections of the
+     * redundancy group: asking the queue made a connection wait for acknowledgements that are due on another one. */
+#if (CONFIG_USE_SEMAPHORES == 1)
+    Semaphore_wait(self->sentASDUsLock);
+#endif
+
+    if (self->oldestSentASDU != -1)
     {
-        if (MessageQueue_hasUnconfirmedIMessages(self->lowPrioQueue))
-            return true;
+        int currentIndex = self->oldestSentASDU;
+
+        while (true)
+        {
+            if (self->sentASDUs[currentIndex].queueEntry != NULL)
+            {
+                retVal = true;
+                break;
+            }
+
+            if (currentIndex == self->newestSentASDU)
+                break;
+
+            currentIndex = (currentIndex + 1) % self->maxSentASDUs;
+        }
     }
+
+#if (CONFIG_USE_SEMAPHORES == 1)
+    Semaphore_post(self->sentASDUsLock);
+#endif
 
     return retVal;
 }
